@@ -194,6 +194,7 @@ func (f *chainFam) deliver(m sdk.Msg) M {
 	ev := M{"a": "tx", "t": sdk.MsgTypeURL(m), "code": int64(r.Code), "cs": r.Codespace, "gas": r.GasUsed, "ev": evDigest(r.Events), "ok": r.Code == 0, "x": M{"msg": ms}}
 	if f.ledger {
 		ev["den"], ev["amt"] = coinOfMsg(m)
+		ev["signer"] = f.c.LabelOf(signer.S())
 	}
 	return ev
 }
@@ -312,6 +313,33 @@ func (f *chainFam) Apply(st M) M {
 		}
 	case "prove": // every listed prover proves its current challenge (keeps files alive across reward blocks)
 		k := f.c.App.StorageKeeper
+		if f.ledger { // one transaction per recorded step: the ledger compares consecutive projections
+			var cands []sdk.Msg
+			for _, uf := range k.GetAllFileByMerkle(f.c.Ctx) {
+				for _, t := range f.files {
+					if string(t.root) != string(uf.Merkle) {
+						continue
+					}
+					if len(uf.Proofs) < int(uf.MaxProofs) {
+						p := f.c.Acct([]string{"p1", "p2", "p3", "p4"}[f.rng.Intn(4)])
+						if item, hl, ok := t.proof(0); ok && !uf.ContainsProver(p.S()) {
+							cands = append(cands, &stypes.MsgPostProof{Creator: p.S(), Item: item, HashList: hl, Merkle: t.root, Owner: uf.Owner, Start: uf.Start, ToProve: 0})
+						}
+					}
+					for _, pk := range uf.Proofs {
+						if pr, ok := k.GetProofWithBuiltKey(f.c.Ctx, []byte(pk)); ok {
+							if item, hl, ok := t.proof(pr.ChunkToProve); ok {
+								cands = append(cands, &stypes.MsgPostProof{Creator: pr.Prover, Item: item, HashList: hl, Merkle: t.root, Owner: uf.Owner, Start: uf.Start, ToProve: pr.ChunkToProve})
+							}
+						}
+					}
+				}
+			}
+			if len(cands) == 0 {
+				return nil
+			}
+			return f.deliver(cands[f.rng.Intn(len(cands))])
+		}
 		var last M
 		for _, uf := range k.GetAllFileByMerkle(f.c.Ctx) {
 			for _, t := range f.files {
